@@ -27,14 +27,24 @@ IPS = ["127.0.0.1", "192.168.0.12", "10.0.0.7", "::1", "203.0.113.9"]
 def gen_headers(r, ctype_p=0.6):
     hs = []
     for _ in range(r.randint(0, 4)):
-        hs.append((r.choice(HNAMES), r.choice(HVALS)))
+        hs.append((r.choice(HNAMES), "" if r.random() < 0.12 else r.choice(HVALS)))
     if r.random() < ctype_p:
-        hs.insert(r.randint(0, len(hs)), (r.choice(["Content-Type", "content-type", "CONTENT-TYPE"]), r.choice(CTYPES)))
+        hs.insert(r.randint(0, len(hs)), (r.choice(["Content-Type", "content-type", "CONTENT-TYPE"]), "" if r.random() < 0.08 else r.choice(CTYPES)))
     return hs
 
 
+def gen_body(r):
+    """HTTP message body: missing (None), present but empty (b"" -- every real GET has one) or non-empty."""
+    x = r.random()
+    if x < 0.10:
+        return None
+    if x < 0.35:
+        return b""
+    return r.choice(BODIES[1:])
+
+
 def gen_msgs(r):
-    return [(r.random() < 0.5, r.choice(BODIES[1:])) for _ in range(r.randint(0, 4))]
+    return [(r.random() < 0.5, b"" if r.random() < 0.12 else r.choice(BODIES[1:])) for _ in range(r.randint(0, 4))]
 
 
 def gen_facts(r, typ=None):
@@ -66,9 +76,9 @@ def gen_facts(r, typ=None):
             hs.insert(0, ("Host", hh))
             f["host_header"] = hh
         f["req_headers"] = hs
-        f["req_body"] = r.choice(BODIES)
+        f["req_body"] = gen_body(r)
         if r.random() < 0.65:
-            f["resp"] = {"code": r.choice(CODES), "headers": gen_headers(r, 0.75), "body": r.choice(BODIES)}
+            f["resp"] = {"code": r.choice(CODES), "headers": gen_headers(r, 0.75), "body": gen_body(r)}
         else:
             f["resp"] = None
         f["ws"] = gen_msgs(r) if (f["resp"] and r.random() < 0.25) else None
@@ -166,12 +176,16 @@ def target_strings(op, pool):
     return [s for s in out if s]
 
 
+# regexes that match the empty string: they tell "present but empty" (b"", "", empty header value) from "absent"
+EMPTY_OK = ["^$", ".*", "x?", "a*", "\\A\\Z", "(?:)", "^", "$", "^.*$", "\\Z", "(nomatch)?", "^(zzz|)$", "[0-9]*"]
 MISS = ["zzz", "nomatch", "qqq\\d", "^xyz", "0000$", "foo.bar.baz", "[0-9]{9}"]
 
 
 def gen_regex(r, op, pool):
     """A valid Python regex (str), usually derived from a substring of what the operator looks at."""
     targets = target_strings(op, pool)
+    if r.random() < 0.12:
+        return r.choice(EMPTY_OK)
     if not targets or r.random() < 0.15:
         return r.choice(MISS)
     t = r.choice(targets)
@@ -222,6 +236,8 @@ def gen_regex(r, op, pool):
         p = f"(?:{p})"
     elif x < 0.47:
         p = "\\b" + p
+    elif x < 0.51:
+        p = f"^({p})?$"  # also matches the empty string
     try:
         re.compile(p)
         re.compile(p.encode("utf8"))
